@@ -16,6 +16,8 @@ CHECKS = {
          'sampled; subscribers are scripted peers; wire elements parsed with the library container classes before canonicalisation', '6 (C04)'),
  'C07': ('exploration', 'seeded search over getter x writer interleavings in the simulated provider; every Get answer is refined against the provider history entry of the MdibVersion it states',
          'sampled schedules at lock and (sampled) line granularity; answers parsed with the library reader', '6 (C07)'),
+ 'C08': ('exploration', 'seeded search over sequences of Subscribe/Renew/GetStatus/Unsubscribe requests, transactions, virtual-clock advances across expiry, wall-clock jumps, endpoint failures and shutdown; a reference liveness model driven only by what the scripted subscribers observed decides per (commit, subscription) what had to / must not arrive',
+         'sampled; tolerance window around expiry; after an observed delivery failure a subscription (and those sharing its connection) is treated as uncertain; housekeeping grace 2.3 s', '6 (C08)'),
 }
 TECH = 'deterministic simulation with fault injection (seeded scheduler + virtual clock + simulated network, fork per run, ddmin replay)'
 
